@@ -556,6 +556,12 @@ func vfQcReplayTP(env *vfEnv, b int, c vfQcCase) int {
 
 type vfQcPkt struct {
 	K   string `json:"k"`
+	// ackn cases
+	N    int    `json:"n"`
+	Gap  int    `json:"gap"`
+	Ecn  bool   `json:"ecn"`
+	Room string `json:"room"`
+	// pkt cases
 	Pt  string `json:"pt"`
 	Dl  int    `json:"dl"`
 	Sl  int    `json:"sl"`
@@ -649,12 +655,30 @@ func vfQcProtect(rnd *rand.Rand, c vfQcPkt, k vfQcKeys) *vfQcBuilt {
 	x.pn = x.ack + packetNumber(c.D)
 	x.payload = make([]byte, c.Pay)
 	rnd.Read(x.payload)
-	x.payload[0] |= 1 // not a PADDING run from the start (cosmetic)
+	if c.Pay > 0 {
+		x.payload[0] |= 1 // not a PADDING run from the start (cosmetic)
+	}
 	w := &packetWriter{}
 	w.reset(c.Pay + 400)
+	// fill: Pay = 0 asks for as much payload as the writer itself allows (one CRYPTO frame
+	// as large as it grants, then PING frames to the limit)
+	fill := func() {
+		if c.Pay > 0 {
+			w.b = append(w.b, x.payload...)
+			return
+		}
+		b, _ := w.appendCryptoFrame(0, 60000)
+		rnd.Read(b)
+		for w.appendPingFrame() {
+		}
+		x.payload = append([]byte{}, w.payload()...)
+	}
+	if c.Pay == 0 {
+		w.reset(20000)
+	}
 	if x.pt == packetType1RTT {
 		w.start1RTTPacket(x.pn, x.ack, x.dcid)
-		w.b = append(w.b, x.payload...)
+		fill()
 		w.finish1RTTPacket(x.pn, x.ack, x.dcid, k.upd)
 	} else {
 		p := longPacket{ptype: x.pt, version: x.version, num: x.pn, dstConnID: x.dcid, srcConnID: x.scid}
@@ -664,14 +688,14 @@ func vfQcProtect(rnd *rand.Rand, c vfQcPkt, k vfQcKeys) *vfQcBuilt {
 			x.token = nil
 		}
 		w.startProtectedLongHeaderPacket(x.ack, p)
-		w.b = append(w.b, x.payload...)
+		fill()
 		w.finishProtectedLongHeaderPacket(x.ack, k.fixed, p)
 	}
 	x.dgram = append([]byte{}, w.datagram()...)
 	var ver [4]byte
 	binary.BigEndian.PutUint32(ver[:], x.version)
 	x.in = map[string]any{"pt": c.Pt, "version": vfQcB(ver[:]), "dcid": vfQcB(x.dcid), "scid": vfQcB(x.scid),
-		"token": vfQcB(x.token), "pn": vfQcVal(uint64(x.pn)), "d": c.D, "paylen": c.Pay, "suite": int(k.suite)}
+		"token": vfQcB(x.token), "pn": vfQcVal(uint64(x.pn)), "d": c.D, "paylen": len(x.payload), "suite": int(k.suite)}
 	return x
 }
 
@@ -1060,6 +1084,33 @@ func vfQcFrameLine(env *vfEnv, tn int, rnd *rand.Rand, src string, chk bool) {
 	env.Emit(tn, ev)
 }
 
+// vfQcAckNLine: an ACK frame with n single-packet ranges (TLC case "ackn") written with the
+// room class asked for; need = what the writer produces with ample room.
+func vfQcAckNLine(env *vfEnv, tn int, rnd *rand.Rand, c vfQcPkt) {
+	f := vfQcFrame{K: "ack", V: []vfQcBytes{vfQcVal(uint64(rnd.Intn(64))), vfQcVal(0), vfQcVal(0), vfQcVal(0)}}
+	if c.Ecn {
+		f.V[1], f.V[2], f.V[3] = vfQcVal(uint64(1+rnd.Intn(60))), vfQcVal(uint64(rnd.Intn(3))), vfQcVal(uint64(rnd.Intn(70)))
+	}
+	lo := uint64(1000 + rnd.Intn(1000))
+	for i := 0; i < c.N; i++ {
+		f.R = append(f.R, []vfQcBytes{vfQcVal(lo), vfQcVal(lo)})
+		lo += uint64(c.Gap) + 2
+	}
+	f.norm()
+	need := 0
+	if p := vfCatchTimeout(10*time.Second, func() {
+		full := vfQcWriter(nil, 8000)
+		vfQcBuild(f).write(full)
+		need = len(full.b)
+	}); p != "" {
+		vfQcEmitPanic(env, tn, p, "ackn ample")
+		return
+	}
+	avail := map[string]int{"ample": need + 60, "exact": need, "minus1": need - 1, "half": need / 2,
+		"twothirds": 2 * need / 3, "tiny": 6}[c.Room]
+	vfQcTightFrame(env, tn, rnd, f, need, avail, c.Room)
+}
+
 // vfQcTightLine writes a well-formed frame with little room.
 func vfQcTightLine(env *vfEnv, tn int, rnd *rand.Rand) {
 	f := vfQcRandFrame(rnd, 40)
@@ -1070,6 +1121,10 @@ func vfQcTightLine(env *vfEnv, tn int, rnd *rand.Rand) {
 	if k := f.K; (k == "crypto" || k == "stream" || k == "ack") && rnd.Intn(2) == 0 {
 		avail = rnd.Intn(need + 2)
 	}
+	vfQcTightFrame(env, tn, rnd, f, need, avail, "seeded")
+}
+
+func vfQcTightFrame(env *vfEnv, tn int, rnd *rand.Rand, f vfQcFrame, need, avail int, room string) {
 	if avail < 0 {
 		avail = 0
 	}
@@ -1080,7 +1135,7 @@ func vfQcTightLine(env *vfEnv, tn int, rnd *rand.Rand) {
 		vfQcEmitPanic(env, tn, p, "tight "+f.K)
 		return
 	}
-	env.Emit(tn, map[string]any{"e": "tight", "f": f, "avail": avail, "need": need, "added": added, "w": vfQcB(w.b[len(prefix):])})
+	env.Emit(tn, map[string]any{"e": "tight", "f": f, "avail": avail, "need": need, "room": room, "added": added, "w": vfQcB(w.b[len(prefix):])})
 }
 
 func vfQcRandTP(rnd *rand.Rand) vfQcTP {
@@ -1229,8 +1284,8 @@ func TestVerifQuicCodec(t *testing.T) {
 				env.Replayed(vfQcReplayFrame(env, it.B, c))
 			case "tp":
 				env.Replayed(vfQcReplayTP(env, it.B, c))
-			case "pkt":
-				env.Replayed(0) // packet cases are judged in record mode
+			case "pkt", "ackn":
+				env.Replayed(0) // packet and ACK-limit cases are judged in record mode
 			default:
 				t.Fatalf("item %d: unknown case kind %q", it.B, c.K)
 			}
@@ -1241,14 +1296,35 @@ func TestVerifQuicCodec(t *testing.T) {
 		// packet cases from TLC, 25 per trace
 		if env.In != "" {
 			// the packet cases in a canonical order (TLC prints them in worker order)
-			var items []vfItem
+			var items, acks []vfItem
 			for _, it := range env.Items() {
 				var c vfQcPkt
-				if json.Unmarshal(it.V, &c) == nil && c.K == "pkt" {
+				if json.Unmarshal(it.V, &c) != nil {
+					continue
+				}
+				switch c.K {
+				case "pkt":
 					items = append(items, it)
+				case "ackn":
+					acks = append(acks, it)
 				}
 			}
 			sort.Slice(items, func(i, j int) bool { return string(items[i].V) < string(items[j].V) })
+			sort.Slice(acks, func(i, j int) bool { return string(acks[i].V) < string(acks[j].V) })
+			// ACK frames around the writer's structural limits, 24 per trace
+			for lo := 0; lo < len(acks); lo += 24 {
+				tn++
+				if !env.Only(tn) || env.Hung {
+					continue
+				}
+				rnd := env.Rand(int64(500000 + tn))
+				hdr("ack-limits")
+				for i := lo; i < lo+24 && i < len(acks) && !env.Hung; i++ {
+					var c vfQcPkt
+					json.Unmarshal(acks[i].V, &c)
+					vfQcAckNLine(env, tn, rnd, c)
+				}
+			}
 			per := 25
 			for lo := 0; lo < len(items); lo += per {
 				tn++
